@@ -4,7 +4,9 @@ package c12
 // output descriptors (protoreflect / descriptorpb); bufimageutil is only the system under test.
 
 import (
+	"errors"
 	"fmt"
+	"runtime/debug"
 	"sort"
 	"strings"
 
@@ -98,12 +100,7 @@ func runOracle(input bufimage.Image, f filterSpec) *verdict {
 		v.harness = fmt.Errorf("input image does not link: %w", err)
 		return v
 	}
-	for _, n := range append(append([]string{}, f.Include...), f.Exclude...) {
-		if u.byName[n] == nil && u.pkgFiles[n] == nil {
-			v.harness = fmt.Errorf("filter names %q which is not in the image", n)
-			return v
-		}
-	}
+	rejects := u.rejections(f)
 	x := u.expandExcluded(f.Exclude)
 	conflicts := u.conflicts(f.Include, x)
 
@@ -115,7 +112,10 @@ func runOracle(input bufimage.Image, f filterSpec) *verdict {
 			return v
 		}
 	}
-	result, ferr := bufimageutil.FilterImage(subject, f.options(f.Include, f.Exclude)...)
+	result, ferr, panicked := safeFilter(subject, f.options(f.Include, f.Exclude))
+	if panicked != "" {
+		return fail(v, "filter-panic", "FilterImage(include=%v exclude=%v, exclude custom options=%v, exclude known extensions=%v, mutate in place=%v, allow imported=%v) panicked on a valid image: %s", f.Include, f.Exclude, f.ExcludeCustomOptions, f.ExcludeKnownExtensions, f.MutateInPlace, f.AllowImported, panicked)
+	}
 
 	// (7) copying mode leaves the input untouched (also when the filter fails)
 	if !f.MutateInPlace {
@@ -126,6 +126,29 @@ func runOracle(input bufimage.Image, f filterSpec) *verdict {
 
 	// reference closure; with a documented conflict it is only used to recognise namespace-only messages
 	cl := u.closure(f, x)
+
+	// (0) the filter is rejected exactly when the reference says so, with the documented error
+	if len(rejects) > 0 {
+		kinds := map[string]bool{}
+		for _, rj := range rejects {
+			kinds[rj.kind] = true
+		}
+		if ferr == nil {
+			return fail(v, "filter-accepted:"+rejects[0].kind, "FilterImage(include=%v exclude=%v, allow imported=%v) succeeded although %s name %q must be rejected (%s)", f.Include, f.Exclude, f.AllowImported, rejects[0].side, rejects[0].name, rejects[0].kind)
+		}
+		okKind := len(conflicts) > 0 ||
+			(kinds[rejectNotFound] && errors.Is(ferr, bufimageutil.ErrImageFilterTypeNotFound)) ||
+			(kinds[rejectIsImport] && errors.Is(ferr, bufimageutil.ErrImageFilterTypeIsImport)) ||
+			// a package without files of its own: either documented error is acceptable
+			(kinds[rejectNoFiles] && (errors.Is(ferr, bufimageutil.ErrImageFilterTypeIsImport) || errors.Is(ferr, bufimageutil.ErrImageFilterTypeNotFound)))
+		if !okKind {
+			return fail(v, "filter-error:wrong-kind", "FilterImage(include=%v exclude=%v) must fail because of %+v, but failed with a different error: %v", f.Include, f.Exclude, rejects, ferr)
+		}
+		for k := range kinds {
+			v.class("rejected:" + k)
+		}
+		return v
+	}
 
 	// (1) no failure on existing, disjoint, conflict-free names
 	if ferr != nil {
@@ -138,7 +161,14 @@ func runOracle(input bufimage.Image, f filterSpec) *verdict {
 			v.class("nothing-left-error")
 			return v
 		}
-		return fail(v, "filter-error:"+f.mode(), "FilterImage(include=%v exclude=%v) failed although every name exists, include and exclude are disjoint and no included element requires an excluded one: %v", f.Include, f.Exclude, ferr)
+		key := "filter-error:" + f.mode()
+		switch {
+		case errors.Is(ferr, bufimageutil.ErrImageFilterTypeIsImport):
+			key += ":is-import"
+		case errors.Is(ferr, bufimageutil.ErrImageFilterTypeNotFound):
+			key += ":not-found"
+		}
+		return fail(v, key, "FilterImage(include=%v exclude=%v, allow imported=%v) failed although every name exists, every included name is defined in a target file (or imported names are allowed), include and exclude are disjoint and no included element requires an excluded one: %v", f.Include, f.Exclude, f.AllowImported, ferr)
 	}
 	if len(conflicts) > 0 {
 		v.class("conflict-ok")
@@ -166,7 +196,7 @@ func runOracle(input bufimage.Image, f filterSpec) *verdict {
 
 	// (4) nothing excluded, no dangling reference
 	outIdx := indexFDS(out)
-	if len(conflicts) == 0 && len(cl.need) == 0 && len(out.File) > 0 {
+	if len(conflicts) == 0 && len(cl.need) == 0 && len(out.File) > 0 && !u.keepsSomeFile(f) {
 		if _, diff := sameFDS(pristine, out); diff == "" {
 			return fail(v, "unfiltered-image-returned", "the filter include=%v exclude=%v leaves nothing, but FilterImage returned the complete input image (%d files) instead of an empty one", f.Include, f.Exclude, len(out.File))
 		}
@@ -174,6 +204,18 @@ func runOracle(input bufimage.Image, f filterSpec) *verdict {
 	for _, n := range u.order {
 		if x[n] && outIdx.has(n) {
 			return fail(v, "excluded-present", "excluded element %s (filter exclude=%v) is still present in %s", n, f.Exclude, outIdx.fileOf[n])
+		}
+	}
+	for _, of := range out.File {
+		seen := map[string]bool{}
+		for _, dep := range of.Dependency {
+			if seen[dep] {
+				return fail(v, "dependency-duplicated", "file %s of the result lists dependency %s twice (dependencies %v; filter include=%v exclude=%v)", of.GetName(), dep, of.Dependency, f.Include, f.Exclude)
+			}
+			seen[dep] = true
+			if _, ok := outIdx.deps[dep]; !ok {
+				return fail(v, "dependency-missing", "file %s of the result depends on %s which is not in the result (filter include=%v exclude=%v)", of.GetName(), dep, f.Include, f.Exclude)
+			}
 		}
 	}
 	visible := visibleFiles(out)
@@ -291,7 +333,9 @@ func runOracle(input bufimage.Image, f filterSpec) *verdict {
 	}
 
 	// determinism probe (needed to make sense of (6)): the same filter on a fresh clone of the same input
-	if d := rerunDiffers(pristineImage, f, out); d != "" {
+	if d := rerunDiffers(pristineImage, f, out); strings.HasPrefix(d, panicPrefix) {
+		return fail(v, "filter-panic", "FilterImage(include=%v exclude=%v) panicked when run a second time on an identical clone of the input: %s", f.Include, f.Exclude, d)
+	} else if d != "" {
 		return fail(v, "nondeterministic", "FilterImage(include=%v exclude=%v) gives different results for the same input: %s", f.Include, f.Exclude, d)
 	}
 
@@ -301,8 +345,10 @@ func runOracle(input bufimage.Image, f filterSpec) *verdict {
 	// (vanished) excludes is re-applied; it must not fail, but a difference is only recorded as a class.
 	var inc2, exc2 []string
 	for _, n := range f.Include {
-		if outIdx.has(n) || outIdx.pkgs[n] {
+		if outIdx.has(n) || outIdx.pkgs[n] || outIdx.parentOfDeclared(n) {
 			inc2 = append(inc2, n)
+		} else if u.pkgKind(n) == pkgParentOnly {
+			// a package without files contributed nothing; its sub-packages may all be gone
 		} else if len(conflicts) == 0 {
 			return fail(v, "not-idempotent", "included name %s no longer exists after filtering, the same filter cannot be applied again", n)
 		}
@@ -319,7 +365,10 @@ func runOracle(input bufimage.Image, f filterSpec) *verdict {
 			return v
 		}
 		same := len(f.Exclude) == len(exc2)
-		result2, err := bufimageutil.FilterImage(again, f.options(inc2, exc2)...)
+		result2, err, panicked := safeFilter(again, f.options(inc2, exc2))
+		if panicked != "" {
+			return fail(v, "filter-panic", "FilterImage(include=%v exclude=%v) applied to the result of FilterImage(include=%v exclude=%v) (other options: exclude custom options=%v, exclude known extensions=%v, mutate in place=%v, allow imported=%v) panicked: %s", inc2, exc2, f.Include, f.Exclude, f.ExcludeCustomOptions, f.ExcludeKnownExtensions, f.MutateInPlace, f.AllowImported, panicked)
+		}
 		if err != nil {
 			return fail(v, "not-idempotent", "applying the filter (include=%v exclude=%v) to its own result failed: %v", inc2, exc2, err)
 		}
@@ -332,7 +381,9 @@ func runOracle(input bufimage.Image, f filterSpec) *verdict {
 		case same:
 			// is the filter a function of its input at all? re-run the first application a few times
 			for i := 0; i < 12; i++ {
-				if d := rerunDiffers(pristineImage, f, out); d != "" {
+				if d := rerunDiffers(pristineImage, f, out); strings.HasPrefix(d, panicPrefix) {
+					return fail(v, "filter-panic", "FilterImage(include=%v exclude=%v) panicked on a repeated run: %s", f.Include, f.Exclude, d)
+				} else if d != "" {
 					return fail(v, "nondeterministic", "FilterImage(include=%v exclude=%v) gives different results for the same input (run %d): %s", f.Include, f.Exclude, i+2, d)
 				}
 			}
@@ -359,13 +410,37 @@ func runOracle(input bufimage.Image, f filterSpec) *verdict {
 	return v
 }
 
+// safeFilter calls FilterImage and turns a panic into a value: a crash on a valid image and a valid
+// filter is a violation (no filtered image exists), not a harness failure.
+func safeFilter(image bufimage.Image, opts []bufimageutil.ImageFilterOption) (result bufimage.Image, err error, panicked string) {
+	defer func() {
+		if p := recover(); p != nil {
+			stack := string(debug.Stack())
+			if i := strings.Index(stack, "bufimageutil."); i >= 0 {
+				stack = stack[i:]
+			}
+			if len(stack) > 600 {
+				stack = stack[:600] + "…"
+			}
+			result, err, panicked = nil, nil, fmt.Sprintf("%v [at %s]", p, strings.ReplaceAll(stack, "\n", " | "))
+		}
+	}()
+	result, err = bufimageutil.FilterImage(image, opts...)
+	return result, err, ""
+}
+
+const panicPrefix = "PANIC: "
+
 // rerunDiffers applies f to a fresh clone of the input and reports how the result differs from out.
 func rerunDiffers(pristine bufimage.Image, f filterSpec, out *descriptorpb.FileDescriptorSet) string {
 	clone, err := bufimage.CloneImage(pristine)
 	if err != nil {
 		return ""
 	}
-	again, err := bufimageutil.FilterImage(clone, f.options(f.Include, f.Exclude)...)
+	again, err, panicked := safeFilter(clone, f.options(f.Include, f.Exclude))
+	if panicked != "" {
+		return panicPrefix + panicked
+	}
 	if err != nil {
 		return "second run failed: " + err.Error()
 	}
@@ -501,6 +576,16 @@ type fdsIndex struct {
 type structural struct{ key, owner, msg string }
 
 func (x *fdsIndex) has(n string) bool { return x.names[n] }
+
+// parentOfDeclared: n is a proper prefix of a package declared by some file of the set.
+func (x *fdsIndex) parentOfDeclared(n string) bool {
+	for p := range x.pkgs {
+		if (n == "" && p != "") || (n != "" && strings.HasPrefix(p, n+".")) {
+			return true
+		}
+	}
+	return false
+}
 
 func join(scope, name string) string {
 	if scope == "" {
